@@ -1492,6 +1492,31 @@ def _gf_hooks():
             if isinstance(x, T.Token):
                 return wrap(x)              # GF::from(u8)
             return NotImplemented
+        if GFT in cc and (" as core::ops::AddAssign" in cc or " as core::ops::SubAssign" in cc or " as core::ops::MulAssign" in cc) and len(c["args"]) == 2:
+            tgt = folder.fold(c["args"][0])
+            cell = T._loaded(tgt)
+            x, y = gfval(cell), gfval(folder.fold(c["args"][1]))
+            if not (isinstance(x, (Lin, T.Token)) or isinstance(y, (Lin, T.Token))):
+                return NotImplemented
+            if "MulAssign" in cc:
+                lx, ly = _lin(x), _lin(y)
+                if set(ly.t) <= {None}:
+                    res = _lin_scale(lx, ly.t.get(None, 0))
+                elif set(lx.t) <= {None}:
+                    res = _lin_scale(ly, lx.t.get(None, 0))
+                else:
+                    raise T.Trap("product of two data-dependent values (the map is not linear) at " + T.span_str(c["span"]))
+            else:
+                res = _lin_add(_lin(x), _lin(y))
+            new = wrap(res)
+            if isinstance(tgt, T.Ref):
+                tgt.store(new)
+            elif isinstance(cell, dict):
+                cell.clear()
+                cell.update(new)
+            else:
+                raise T.Undecidable("in-place field operation on an unknown place")
+            return ()
         if GFT in cc and (" as core::ops::Add" in cc or " as core::ops::Sub" in cc or " as core::ops::Mul" in cc) and "Assign" not in cc and len(c["args"]) == 2:
             x, y = gfval(folder.fold(c["args"][0])), gfval(folder.fold(c["args"][1]))
             if not (isinstance(x, (Lin, T.Token)) or isinstance(y, (Lin, T.Token))):
